@@ -63,6 +63,7 @@ func init() {
 	registerExec("hcount", hHcount)
 	registerExec("sum", hSum)
 	registerExec("iter", hIter)
+	registerExec("iterm", hIterM)
 	registerExec("setu", func(st *State, a []string) string { return withUnhashed(func() string { return hSet(st, a) }) })
 	registerExec("appu", func(st *State, a []string) string { return withUnhashed(func() string { return hApp(st, a) }) })
 	registerExec("chgu", func(st *State, a []string) string { return withUnhashed(func() string { return hChg(st, a) }) })
@@ -519,16 +520,8 @@ func hSum(st *State, a []string) string {
 	return errStr(hd.vw.SetBacking(n))
 }
 
-func hIter(st *State, a []string) string {
-	hd := st.h(a[0])
-	ro := a[1] == "ro"
-	var sb bytes.Buffer
-	sb.WriteString("ok")
-	extra := 0
-	emit := func(s string) { sb.WriteString(" " + s) }
-	// bit iterators
-	var bit view.BitIter
-	var el view.ElemIter
+// iterOf starts the read-only (ro) or index-based iterator of a view.
+func iterOf(hd *handle, ro bool) (bit view.BitIter, el view.ElemIter, ok bool) {
 	switch x := hd.vw.(type) {
 	case *view.BitVectorView:
 		if ro {
@@ -573,8 +566,50 @@ func hIter(st *State, a []string) string {
 			el = x.Iter()
 		}
 	default:
+		return nil, nil, false
+	}
+	return bit, el, true
+}
+
+func hIter(st *State, a []string) string {
+	hd := st.h(a[0])
+	bit, el, ok := iterOf(hd, a[1] == "ro")
+	if !ok {
 		return "err"
 	}
+	return driveIter(hd, bit, el, -1, nil)
+}
+
+// iterm <h> <k> <pop | app V | set i V>: the index-based iterator of h is advanced k times, then
+// the view is mutated, then the iteration is finished: what it yields afterwards must be the
+// view's CURRENT components or an error, never a component the view no longer has.
+func hIterM(st *State, a []string) string {
+	hd := st.h(a[0])
+	k, _ := strconv.Atoi(a[1])
+	bit, el, ok := iterOf(hd, false)
+	if !ok {
+		return "err"
+	}
+	return driveIter(hd, bit, el, k, func() string {
+		switch a[2] {
+		case "pop":
+			return hPop(st, []string{a[0]})
+		case "app":
+			return hApp(st, append([]string{a[0]}, a[3:]...))
+		case "set":
+			return hSet(st, append([]string{a[0]}, a[3:]...))
+		}
+		panic("bad iterm mutation " + a[2])
+	})
+}
+
+// driveIter calls Next until the third end report (or two calls after the first error); after
+// `pause` calls (if >= 0) it runs `between` and records its outcome as `m=<outcome>`.
+func driveIter(hd *handle, bit view.BitIter, el view.ElemIter, pause int, between func() string) string {
+	var sb bytes.Buffer
+	sb.WriteString("ok")
+	extra := 0
+	emit := func(s string) { sb.WriteString(" " + s) }
 	// after the first error exactly two more calls are made (an iterator must not hand out a
 	// wrong component after it reported missing data); the run also ends at the third end report
 	post := -1
@@ -585,6 +620,10 @@ func hIter(st *State, a []string) string {
 		}
 		if post > 0 {
 			post--
+		}
+		if between != nil && int(calls) == pause {
+			emit("m=" + between())
+			between = nil
 		}
 		calls++
 		if bit != nil {
